@@ -20,6 +20,7 @@ type Clause struct {
 }
 
 type LoopContract struct {
+	Unfold     []Clause // schema instances assumed at the loop head (definitional unfoldings)
 	Invariants []Clause
 	Decreases  Expr
 	DecSrc     string
@@ -48,6 +49,7 @@ type Contract struct {
 	Inline     bool
 	Checked    bool // arith checked: overflow obligations
 	Unfold     []Clause
+	UnfoldPost []Clause // schema instances assumed in the exit state (to fold a definition for a fresh object)
 	Abstract   []string // free-text notes about unmodelled parts
 	Fresh      bool     // result is a fresh reference
 	NoPanic    bool     // trusted: never panics under its requires
@@ -237,7 +239,7 @@ func (cs *ContractSet) parseContractLines(file, pkgPath string, lines []string, 
 				cur.Key = name
 			}
 			cs.byHeader = append(cs.byHeader, cur)
-		case "requires", "ensures", "invariant", "unfold":
+		case "requires", "ensures", "invariant", "unfold", "unfold-post":
 			if cur == nil {
 				return errf(i, "%s outside func", word)
 			}
@@ -250,8 +252,14 @@ func (cs *ContractSet) parseContractLines(file, pkgPath string, lines []string, 
 				cur.Requires = append(cur.Requires, c)
 			case "ensures":
 				cur.Ensures = append(cur.Ensures, c)
+			case "unfold-post":
+				cur.UnfoldPost = append(cur.UnfoldPost, c)
 			case "unfold":
-				cur.Unfold = append(cur.Unfold, c)
+				if curLoop != nil {
+					curLoop.Unfold = append(curLoop.Unfold, c)
+				} else {
+					cur.Unfold = append(cur.Unfold, c)
+				}
 			case "invariant":
 				if curLoop == nil {
 					return errf(i, "invariant outside loop")
